@@ -30,6 +30,7 @@ RULE = ("valid DFAs and NFAs with non-empty language, 1-5 states, alphabets of 1
         "states and (for NFAs) an empty-string edge or a nondeterministic choice, (for DFAs) a cycle or >= 3 states")
 
 K = 5  # word length bound of the AST-level cross checks
+MAX_EDGES = 14  # generated NFAs have at most this many (state, symbol, target) triples
 IMPL_CAP = 60  # informational model-vs-compiled-expression check only for compiled NFAs up to this many states
 
 # ---------------------------------------------------------------------------------------------
@@ -189,7 +190,9 @@ def _nfa(n, sigma, edges, finals, init=0):
 CORPUS = [
     # DESIGN section 8 row 6: empty-string path bypassing a state, next to a parallel symbol edge
     ("nfa", _nfa(3, "a", [(0, "", 1), (1, "", 2), (0, "a", 2)], {2}), "eps-bypass-1"),
-    ("nfa", _nfa(3, "a", [(0, "", 1), (1, "", 2), (2, "a", 2)], {2}), "eps-bypass-2"),
+    ("nfa", _nfa(3, "a", [(0, "", 1), (1, "", 2), (0, "", 2), (2, "a", 2)], {2}), "eps-bypass-2-lone-option-mark"),
+    ("nfa", _nfa(4, "a", [(0, "a", 1), (1, "", 2), (2, "", 3)], {1, 3}), "eps-bypass-wrong-language"),
+    ("nfa", _nfa(3, "a", [(0, "", 1), (1, "", 2), (2, "a", 2)], {2}), "eps-chain"),
     ("nfa", _nfa(4, "a", [(0, "", 1), (1, "", 2), (2, "", 3), (0, "a", 3), (3, "a", 3)], {3}), "eps-bypass-3"),
     ("nfa", _nfa(3, "ab", [(0, "", 1), (1, "", 2), (0, "a", 2), (2, "b", 0)], {2}), "eps-bypass-cycle"),
     # parallel and cyclic empty-string edges, final initial state, state without a row
@@ -246,6 +249,9 @@ def run(ctx):
             kind, sdef = "nfa", rand_bypass_nfa(rng)
         if not nonempty_def(kind, sdef):
             ctx.tally("skipped_empty_language")
+            continue
+        if kind == "nfa" and sum(len(ts) for row in sdef["transitions"].values() for ts in row.values()) > MAX_EDGES:
+            ctx.tally("skipped_too_dense")   # expression length grows like 4^states on dense graphs
             continue
         check(ctx, kind, sdef, "random")
         done += 1
